@@ -35,13 +35,13 @@ Proof. exact inv_check_implies_check_m. Qed.
 Print Assumptions C16_strict_never_rejects_valid.
 
 (* ---- the page size, at the level of the engine model: two engines configured with different page sizes and fed the same
-   transactions commit the same contents (both equal the reference's, by the refinement theorem of C01). `txs_ok` carries
-   the side conditions of that theorem (the model's fuels, and the evaluated allocation hypothesis, see props/C01.v). ---- *)
-From Jamm Require Engine EngineAbs EngineRefines EngineCorollaries.
-Theorem C16_partial_page_size_irrelevant : forall P1 P2 txs st1 st2, 0 < P1 -> 0 < P2 ->
-  EngineRefines.txs_ok (Engine.init_db P1) txs -> EngineRefines.txs_ok (Engine.init_db P2) txs ->
+   transactions commit the same contents (both equal the reference's, by the refinement theorem of C01). `txs_ok'` carries
+   only the side conditions that reflect the model's fuels (paths < 8, trees of height <= 64). ---- *)
+From Jamm Require Engine EngineAbs EngineRefines EngineAllocInv EngineCorollaries.
+Theorem C16_page_size_irrelevant : forall P1 P2 txs st1 st2, 0 < P1 -> 0 < P2 ->
+  EngineAllocInv.txs_ok' (Engine.init_db P1) txs -> EngineAllocInv.txs_ok' (Engine.init_db P2) txs ->
   EngineRefines.run_txs (Engine.init_db P1) txs = Engine.Ok st1 ->
   EngineRefines.run_txs (Engine.init_db P2) txs = Engine.Ok st2 ->
   EngineAbs.abs_db st1 = EngineAbs.abs_db st2.
 Proof. exact EngineCorollaries.page_size_irrelevant. Qed.
-Print Assumptions C16_partial_page_size_irrelevant.
+Print Assumptions C16_page_size_irrelevant.
